@@ -40,6 +40,17 @@ func execAPI(op string, a []string) string {
 		if err != nil {
 			return "err-reencode"
 		}
+		// the convenience forms of the same map agree with its encoding and are well-formed CBOR
+		if by := h.Bytesify(); string(by) != string(b) || key.ValidCBOR(by) != nil {
+			return "HEADERS-BYTESIFY-DISAGREES " + hx(by) + " vs " + hx(b)
+		}
+		if kb, _ := key.MarshalCBOR(h); string(kb) != string(b) {
+			return "HEADERS-MARSHAL-DISAGREES " + hx(kb) + " vs " + hx(b)
+		}
+		var nilH cose.Headers
+		if nb := nilH.Bytesify(); key.ValidCBOR(nb) != nil {
+			return "NIL-HEADERS-BYTESIFY-NOT-CBOR " + hx(nb)
+		}
 		return "ok " + hx(b)
 	case "api.hash":
 		alg, _ := strconv.Atoi(a[0])
